@@ -326,18 +326,18 @@ def _rand_list(rng, shape, scale, offset=0.0):
 def _c02_softmax_cases(rng, quick):
     import itertools
     shapes = []
-    reps12 = 1 if quick else 5
+    reps12 = 2 if quick else 10
     for _ in range(reps12):
         shapes += [(n,) for n in range(1, 5)]
         shapes += [s for s in itertools.product(range(1, 5), repeat=2)]     # includes (2,3)
     all3 = list(itertools.product(range(1, 5), repeat=3))
     all4 = list(itertools.product(range(1, 5), repeat=4))
     if quick:
-        s3 = [(1, 3, 2), (2, 1, 4), (3, 2, 1), (2, 3, 4)] + rng.sample(all3, 8)
-        s4 = [(1, 2, 1, 3), (2, 3, 2, 2), (2, 1, 3, 1)] + rng.sample(all4, 5)
+        s3 = [(1, 3, 2), (2, 1, 4), (3, 2, 1), (2, 3, 4)] + rng.sample(all3, 24)
+        s4 = [(1, 2, 1, 3), (2, 3, 2, 2), (2, 1, 3, 1)] + rng.sample(all4, 20)
     else:
-        s3 = all3
-        s4 = [(1, 2, 1, 3), (2, 3, 2, 2), (2, 1, 3, 1)] + rng.sample(all4, 150)
+        s3 = all3 * 4
+        s4 = [(1, 2, 1, 3), (2, 3, 2, 2), (2, 1, 3, 1)] + all4
     shapes += s3 + s4
     cases = []
     for sh in shapes:
@@ -351,7 +351,7 @@ def _c02_softmax_cases(rng, quick):
 
 def _c02_loss_cases(rng, quick):
     cases = []
-    for _ in range(1 if quick else 10):
+    for _ in range(3 if quick else 30):
         for N in range(1, 6):
             for C in range(1, 6):
                 for op in ("nll_loss", "cross_entropy"):
@@ -368,7 +368,7 @@ def _c02_loss_cases(rng, quick):
 
 def _c02_bn_cases(rng, quick):
     cases = []
-    for _ in range(6 if quick else 60):
+    for _ in range(18 if quick else 180):
         for training in (True, False):
             for has_w, has_b in ((True, True), (False, False), (True, False), (False, True)):
                 for running in (True, False):
@@ -703,7 +703,7 @@ def _c09_cases(rng, quick):
     add_ce(batch, [0, 0, 2, 1])
     for c in cases:
         c["fixed"] = True
-    for _ in range(40 if quick else 400):
+    for _ in range(150 if quick else 1500):
         R, K = rng.randint(1, 4), rng.randint(2, 5)
         rows = []
         for _r in range(R):
